@@ -28,7 +28,7 @@ SPEC = {
 def bounds(tier):
     q = tier == "quick"
     return {"depth": 3 if q else 4, "shapes": "W-DIG(n<=4, arcs<=6) + W-NAMED, W-DAG(n<=4)" if q else "W-DIG(n<=4, arcs<=8) + W-NAMED, W-DAG(n<=5, arcs<=7)",
-            "antichain_weights": "{0..3}^E for |E|<=4, {0,1,3}^E for |E|=5, plus 10^6 on one arc", "peeling": "flows from <=3 paths, weights<=3"}
+            "antichain_weights": "{0..3}^E for |E|<=4, {0,1,3}^E for |E|=5, plus 10^6 / 2^32-|E| / 2^32+1 / 10^12 on one arc", "peeling": "flows from <=3 paths, weights<=3"}
 
 
 def cases(tier, seed):
@@ -256,13 +256,15 @@ def run(case):
         alpha = (0, 1, 2, 3) if len(E) <= 4 else (0, 1, 3)
         reach = {v: g.reach_fwd(v) for v in V}
         vecs = list(itertools.product(alpha, repeat=len(E))) + [tuple(10 ** 6 if i == 0 else 1 for i in range(len(E)))]
+        # "large weights": one arc heavier than the constant 2^32 the min-cost-flow reduction uses as capacity / supply (known finding AC-2POW32)
+        vecs += [tuple(big if i == j else 1 for i in range(len(E))) for big in (2 ** 32 - len(E), 2 ** 32 + 1, 10 ** 12) for j in (0, len(E) - 1)]
         for wv in vecs:
             wf = {e: x for e, x in zip(E, wv)}
             try:
                 val, ac = st.compute_max_edge_antichain(get_antichain=True, weight_function=dict(wf))
                 val2 = st.compute_max_edge_antichain(get_antichain=False, weight_function=dict(wf))
             except Exception as ex:
-                viol.append({"kind": "antichain_exception", "msg": f"weights {wf}: {common.exc_str(ex)}"})
+                viol.append({"kind": "antichain_exception", "total_weight": sum(wv), "msg": f"weights {wf}: {common.exc_str(ex)}"})
                 continue
             tags["antichain"] += 1
             best = 0
@@ -281,10 +283,10 @@ def run(case):
             elif val != best:
                 errs.append(f"reported maximum antichain weight {val}, brute force {best}")
             if errs:
-                viol.append({"kind": "antichain_wrong", "msg": f"weights {wf}: {errs[0]}"})
+                viol.append({"kind": "antichain_wrong", "total_weight": sum(wv), "msg": f"weights {wf}: {errs[0]}"})
             elif len(acs) >= 2:
                 nt.append(f"{key}|ac|{wv}")
-            if len(viol) > 4:
+            if len([x for x in viol if x.get('total_weight', 0) <= 2 ** 32]) > 4:
                 break
 
     elif part == "peel":
